@@ -84,6 +84,11 @@ type caseJSON struct {
 	Headers    [][2]string `json:"headers,omitempty"`
 	GetWire    string      `json:"get_wire,omitempty"`  // explicit wire form of Get (alternative encodings of names/values)
 	PostWire   string      `json:"post_wire,omitempty"` // explicit wire form of Post
+	// the sibling request B: on the long-lived WAF the runs of the request (A) alternate with runs of B
+	// (same configuration; same number of names with other lengths, or another number of names)
+	Alt     bool        `json:"alt,omitempty"`
+	AltGet  [][2]string `json:"alt_get,omitempty"`
+	AltPost [][2]string `json:"alt_post,omitempty"`
 	Reps       int         `json:"reps,omitempty"`
 	Observed   any         `json:"observed,omitempty"`
 	FindingKey string      `json:"finding_key,omitempty"`
@@ -99,9 +104,10 @@ var varCoq = map[string]string{
 	"ARGS_GET_NAMES": "VArgsGetNames", "ARGS_POST_NAMES": "VArgsPostNames", "REQUEST_HEADERS": "VReqHeaders",
 	"REQUEST_HEADERS_NAMES": "VReqHeadersNames", "TX": "VTx", "MATCHED_VAR": "VMatchedVar",
 	"MATCHED_VAR_NAME": "VMatchedVarName", "REQUEST_METHOD": "VReqMethod", "QUERY_STRING": "VQueryString",
+	"ARGS_COMBINED_SIZE": "VArgsCombinedSize",
 }
 
-var singleVar = map[string]bool{"MATCHED_VAR": true, "MATCHED_VAR_NAME": true, "REQUEST_METHOD": true, "QUERY_STRING": true}
+var singleVar = map[string]bool{"MATCHED_VAR": true, "MATCHED_VAR_NAME": true, "REQUEST_METHOD": true, "QUERY_STRING": true, "ARGS_COMBINED_SIZE": true}
 
 var tfCoq = map[string]string{
 	"lowercase": "TLowercase", "uppercase": "TUppercase", "trim": "TTrim", "trimLeft": "TTrimLeft", "trimRight": "TTrimRight",
@@ -689,6 +695,19 @@ func (rn *runner) runCase(cj caseJSON) {
 			order = append(order, c)
 		}
 	}
+	// the sibling request B alternates with A on the long-lived WAF: A, B, A, B, ...
+	useAlt := cj.Alt && insens
+	alt := cj
+	alt.Get, alt.Post, alt.GetWire, alt.PostWire, alt.Alt, alt.AltGet, alt.AltPost = cj.AltGet, cj.AltPost, "", "", false, nil, nil
+	altDistinct := map[string]outcome{}
+	var altOrder []string
+	altRecord := func(o outcome) {
+		c := o.canon()
+		if _, ok := altDistinct[c]; !ok {
+			altDistinct[c] = o
+			altOrder = append(altOrder, c)
+		}
+	}
 	for i := 0; i < reps; i++ {
 		fresh, err := newWAF(dirs)
 		if err != nil {
@@ -697,6 +716,28 @@ func (rn *runner) runCase(cj caseJSON) {
 		record(runTx(fresh, cj))
 		record(runTx(long, cj))
 		rn.oracleEvals += 2
+		if useAlt {
+			if i < 3 {
+				if f2, err := newWAF(dirs); err == nil {
+					altRecord(runTx(f2, alt))
+					rn.oracleEvals++
+				}
+			}
+			altRecord(runTx(long, alt))
+			rn.oracleEvals++
+		}
+	}
+	if useAlt {
+		rn.res.InputDistribution["alternating_sibling_request_on_long_lived_waf"]++
+		if len(altOrder) > 1 {
+			c := cj
+			var allAlt []outcome
+			for _, k := range altOrder {
+				allAlt = append(allAlt, altDistinct[k])
+			}
+			c.Observed = map[string]any{"sibling_request_outcomes": allAlt}
+			rn.fail("c04-long-lived-differs-from-fresh", fmt.Sprintf("the sibling request (alt_get/alt_post), run on fresh WAFs and alternating with the main request on the long-lived WAF, has %d distinct outcomes", len(altOrder)), c)
+		}
 	}
 	first := distinct[order[0]]
 	var all []outcome
@@ -718,6 +759,17 @@ func (rn *runner) runCase(cj caseJSON) {
 				c.Observed = first
 				rn.terms = append(rn.terms, fmt.Sprintf("CI %s %s %s", cfgTerm, coqReq(cj), ot))
 				rn.cases = append(rn.cases, c)
+			}
+			// the sibling's outcome against the model too (one case in three, to bound the Coq time)
+			if useAlt && len(altOrder) > 0 && len(rn.terms)%3 == 0 {
+				if ot, ok := coqObs(altDistinct[altOrder[0]]); ok {
+					c := alt
+					c.Kind = "insens"
+					c.Note = "sibling request of an alternating series"
+					c.Observed = altDistinct[altOrder[0]]
+					rn.terms = append(rn.terms, fmt.Sprintf("CI %s %s %s", cfgTerm, coqReq(alt), ot))
+					rn.cases = append(rn.cases, c)
+				}
 			}
 		}
 		rn.res.InputDistribution["order_insensitive"]++
